@@ -86,7 +86,10 @@ def mdInfo (m : Md) : List (String × Json) :=
        | "ok:changed" => Json.str "accepted"
        | other => Json.str other)
     | _, _ => Json.null
-  [("refusal", refusal), ("valid", valid), ("unsigned_mb_reload", Json.str unsignedMb), ("unsigned_env_reload", Json.str unsignedEnv), ("res", "ok"), ("kind", kind), ("wrapper", wrapper), ("canon", optStr (canonPayload p)), ("sigs", sigs),
+  let signable : Json := match m with
+    | .legacy pp _ => optStr (canonPayload pp)
+    | _ => Json.null
+  [("signable", signable), ("refusal", refusal), ("valid", valid), ("unsigned_mb_reload", Json.str unsignedMb), ("unsigned_env_reload", Json.str unsignedEnv), ("res", "ok"), ("kind", kind), ("wrapper", wrapper), ("canon", optStr (canonPayload p)), ("sigs", sigs),
    ("roundtrip", rt), ("dsse_payload", dssePayload), ("dsse_reload", dsseReload)]
 
 def handleMeta (op : String) (a : Json) : Option Json :=
